@@ -5,7 +5,7 @@
     same budget functions as the sync model; "API calls succeed and created pods get scheduled and become
     Ready" and the fairness of the rounds are hypotheses of the statement itself. *)
 From Coq Require Import List ZArith Bool.
-From EDS Require Import Model.Objects Model.Limits Model.Rolling Model.Abstract Proofs.Lists Proofs.C02Proofs.
+From EDS Require Import Model.Base Model.Objects Model.Limits Model.Rolling Model.Abstract Proofs.Lists Proofs.C02Proofs.
 Import ListNotations.
 Open Scope Z_scope.
 
@@ -51,3 +51,24 @@ Theorem C02_fixpoint_silent : forall rs ann ru now items rp,
   (forall obs, admissible_deletes rp obs = true -> obs = []).
 Proof. exact plan_silent_when_up_to_date. Qed.
 Print Assumptions C02_fixpoint_silent.
+
+(** The link between the abstraction and the sync model, as far as it is a statement about one sync: for planning
+    items without a stuck pod, a rollout neither paused nor frozen, the numbers of creations and of update-deletions
+    the REAL plan allows ([rolling_plan_of], every admissible choice of the runtime has exactly these sizes) are the
+    [c] and [d] of the abstract sync on the class counts of those items, and the candidate sets have the sizes of the
+    corresponding classes.  What remains unproved is the environment's half of a round (created pods become planning
+    items with a Ready pod, deleted ones disappear): it is a statement about the API server and the kubelet, exercised
+    by the fair-tail histories. *)
+Theorem C02_plan_projects : forall rs ann ru now items rp,
+  rolling_plan_of rs ann ru now items = Ok rp ->
+  rp_paused rp = false -> rp_frozen rp = false ->
+  count_if (is_class c_unresp rs now) items = 0 -> 0 <= rp_max_sched_failure rp ->
+  let s := abs_of rs now items in
+  let lp := a_limits s (rp_max_creation rp) (rp_max_unavailable rp) in
+  a_nodes s = zlen items /\
+  rp_nb_create rp = Z.min (calc_create lp) (a_missing s) /\
+  rp_nb_delete rp = Z.min (calc_delete lp) (a_old_notready s + a_old_ready s) /\
+  zlen (rp_create_candidates rp) = a_missing s /\
+  zlen (rp_del_unavailable rp) = a_old_notready s /\ zlen (rp_del_available rp) = a_old_ready s.
+Proof. exact plan_projects. Qed.
+Print Assumptions C02_plan_projects.
